@@ -132,7 +132,10 @@ def order_job(job):
             if S is not None:
                 S.quiesce()
             jax.effects_barrier()
-            rec = g.get_record()
+            try:
+                rec = g.get_record()
+            except TypeError:
+                continue  # a node / connection without a single recorded row (get_record() raises; outside the properties)
             t = project(rec, probes.LOG.snapshot(), cfg, ei)
             t["id"] = f"{job['id']}/e{ei}"
             t["first_eligible"] = not wall
